@@ -243,7 +243,18 @@ func genScript(g *vh.Gen, streams [][]byte) (script, ml, rl, msl string) {
 	}
 	var b strings.Builder
 	b.WriteString(table("mail_rules", mail) + table("rcpt_rules", rcpt) + table("msg_rules", msg))
-	if len(mail.lua) > 0 || g.Chance(0.5) {
+	if statefulScripts {
+		// script-level state (a file-level local or a global) written on entry and read back after a short spin: every
+		// concurrent call runs on its own Lua state, so a handler must find what IT wrote; a handler that finds the state of
+		// another session answers 554, which no rule table entitles
+		v := g.Pick("in_flight", "G_in_flight")
+		decl := "local in_flight = nil\n"
+		if v == "G_in_flight" {
+			decl = "G_in_flight = nil\n"
+		}
+		b.WriteString(decl + "function inbucket.before.mail_from_accepted(session)\n local me = session.from.address\n " + v + " = me\n local x = 0\n for i = 1, 20000 do x = x + i end\n" +
+			" if " + v + " ~= me then return smtp.deny(554, \"state of another session\") end\n local f = mail_rules[me]\n if f then return f(session) end\nend\n")
+	} else if len(mail.lua) > 0 || g.Chance(0.5) {
 		b.WriteString("function inbucket.before.mail_from_accepted(session)\n local f = mail_rules[session.from.address]\n if f then return f(session) end\nend\n")
 	}
 	if len(rcpt.lua) > 0 || g.Chance(0.5) {
@@ -263,6 +274,9 @@ func genScript(g *vh.Gen, streams [][]byte) (script, ml, rl, msl string) {
 }
 
 var lastAddrs []string
+
+// statefulScripts: the generated script keeps state at script level (set for the concurrent stream).
+var statefulScripts bool
 
 // secondMsgRules draws the rule table of a second, Go-implemented listener on before.message_stored, registered
 // AFTER the Lua host: for some subjects it answers with the message exactly as it was handed it, redirected to one
@@ -300,7 +314,9 @@ func gen(g *vh.Gen) {
 			streams[j] = smtpd.GenDialogue(g, c, pool[:3], o)
 			hs[j] = vh.H(streams[j])
 		}
+		statefulScripts = g.Chance(0.6)
 		script, ml, rl, msl := genScript(g, streams)
+		statefulScripts = false
 		g.Emit("luapar", append(c.Fields(), strings.Join(hs, "+"), vh.HS(script), ml, rl, msl, secondRules(g, lastAddrs), secondRules(g, lastAddrs), secondMsgRules(g))...)
 	}
 }
